@@ -344,4 +344,25 @@ CHECKS = {
         jobs=[dict(test="TestC08Db", pkg="p08", quick=T(3, 400), thorough=T(6, 1500, 0, 3000)),
               dict(test="TestC08Chain", pkg="p08", quick=T(5, 25), thorough=T(10, 200, 0, 3000))],
     ),
+    "C11": dict(
+        level="exploration",
+        level_text="Stateful property testing over chains spanning many epochs (epoch length 10 / 20 / 60 min, slot skips of up to "
+                   "1500 slots so that pillars miss momentums and many epochs close without an update), stakes / sentinels / "
+                   "delegations entering and leaving mid-epoch, Update and CollectReward at generated times incl. model-guided "
+                   "collects of due credits, repeated collects. After every step, per contract: the raw reward-history entries "
+                   "are parsed; credited ZNN/QSR per epoch <= the epoch's emission computed by the checker from the tables "
+                   "(pillar: per-momentum amounts x slots of the epoch; sentinel / stake / liquidity: epoch amounts); no credit "
+                   "for an epoch the cursor has not passed; an epoch's credits never change after first sight; the cursor never "
+                   "moves back; every CollectReward mints exactly the deposit recorded in the contract state just before it, to "
+                   "the caller, and leaves nothing; deposit == credited - collected for every address; liquidity (before its "
+                   "spork) issues exactly one mint pair per closed epoch. Finally a follower synced in batches with cold caches "
+                   "must hold identical credits and epoch statistics.",
+        level_note="Liquidity after its spork is covered by the bound and once-only clauses only (additional rewards need the "
+                   "administrator key).",
+        technique="stateful property-based testing (rapid) with storage-level reward accounting and a two-node differential",
+        rule="non-trivial = history with >=2 rewarded epochs for >=2 contracts, >=1 long slot skip (missed momentums) and >=1 "
+             "successful collect",
+        assumptions=HIST_ASSUME,
+        jobs=[dict(test="TestC11", quick=T(8, 6, 70), thorough=T(16, 120, 100, 3000))],
+    ),
 }
